@@ -105,16 +105,83 @@ class BodyError(Exception):
     """Raised by the caller's body in 'raise' scenarios."""
 
 
+class HangError(BaseException):
+    """Raised inside the implementation when a run performs far too many file-system operations or does not come back
+    in time (a fault made it loop): the run ends as a failing input, not as a hung check."""
+
+
+MAX_OPS = 20000          # no scenario comes near (BSP.save: a few hundred raw writes)
+RUN_SECONDS = 60         # wall-clock limit of one call into the implementation (normal: milliseconds; 5x rule: the
+#                          slowest run, a BSP.save under persistent sleeping retries of a mutated tree, takes < 2 s)
+
+
+class deadline:
+    """SIGALRM around one call into the implementation (main thread only; elsewhere the operation cap alone applies)."""
+
+    def __init__(self, seconds: int = RUN_SECONDS) -> None:
+        self.seconds = seconds
+        self.on = False
+
+    def __enter__(self) -> 'deadline':
+        import signal
+        if threading.current_thread() is threading.main_thread():
+            def boom(signum: int, frame: Any) -> None:
+                raise HangError(f'no result after {self.seconds} s')
+            self.old = signal.signal(signal.SIGALRM, boom)
+            signal.alarm(self.seconds)
+            self.on = True
+        return self
+
+    def __exit__(self, *a: Any) -> None:
+        import signal
+        if self.on:
+            signal.alarm(0)
+            signal.signal(signal.SIGALRM, self.old)
+
+
+# The exceptions a refused file-system operation is made to raise.  name -> (constructor, run class of the model:
+# 'generic' = an OSError that is no named subclass, 'sub:<Class>' = that subclass of OSError, 'kbd' = not an OSError
+# at all, None = oracle only (FileNotFoundError means "the file is gone" in the model, not "refused")).
+def _oserr(code: int) -> Callable[[str], BaseException]:
+    return lambda name: OSError(code, 'injected fault', name)       # the constructor picks the subclass from errno
+
+
+FAULT_CLASSES: dict[str, tuple[Callable[[str], BaseException], str | None]] = {
+    'OSError:EIO': (_oserr(errno.EIO), 'generic'),
+    'OSError:ENOSPC': (_oserr(errno.ENOSPC), 'generic'),
+    'OSError:EROFS': (_oserr(errno.EROFS), 'generic'),
+    'OSError:EBUSY': (_oserr(errno.EBUSY), 'generic'),
+    'PermissionError:EACCES': (_oserr(errno.EACCES), 'sub:PermissionError'),
+    'PermissionError:EPERM': (_oserr(errno.EPERM), 'sub:PermissionError'),
+    'FileExistsError': (_oserr(errno.EEXIST), 'sub:FileExistsError'),
+    'IsADirectoryError': (_oserr(errno.EISDIR), 'sub:IsADirectoryError'),
+    'NotADirectoryError': (_oserr(errno.ENOTDIR), 'sub:NotADirectoryError'),
+    'InterruptedError': (_oserr(errno.EINTR), 'sub:InterruptedError'),
+    'BlockingIOError': (_oserr(errno.EAGAIN), 'sub:BlockingIOError'),
+    'TimeoutError': (_oserr(errno.ETIMEDOUT), 'sub:TimeoutError'),
+    'FileNotFoundError': (_oserr(errno.ENOENT), None),
+    'KeyboardInterrupt': (lambda name: KeyboardInterrupt(), 'kbd'),
+}
+assert all(type(mk('x')).__name__ == n.split(':')[0] for n, (mk, _r) in FAULT_CLASSES.items())
+
+
 # =============================================================================================== interposition
 class FsSim:
     """In-process interposition of the file API below `root`: records every mutating operation, can kill the process
     before the (crash_at+1)-th operation, inject one OSError, and hand control to a scheduler between operations."""
 
     def __init__(self, root: str, bufsize: int = 8192, fault_at: int | None = None, crash_at: int | None = None,
-                 sched: 'Sched | None' = None) -> None:
+                 sched: 'Sched | None' = None, plan: dict | None = None) -> None:
         self.root = os.path.realpath(root) + os.sep
         self.bufsize = bufsize
         self.fault_at = fault_at
+        # plan = {'at': k, 'cls': name in FAULT_CLASSES, 'times': n | None}: operation k is refused with that exception,
+        # and so are the next operations of the same kind on the same name — all of them (times None: persistent) or
+        # until `times` operations have been refused (transient: then it succeeds)
+        self.plan = plan
+        self.plan_sig: tuple | None = None
+        self.plan_left = 0
+        self.use_by_w: dict[int, int] = {}
         self.crash_at = crash_at
         self.sched = sched
         self.ops: list[dict] = []
@@ -162,10 +229,24 @@ class FsSim:
             self.n += 1
             k = self.n
             ph, exc = self.phase.get(w, ('pre', False))
-            rec = dict(k=k, w=w, op=op, name=name, res='ok', phase=ph, exc=exc, inj=inj, u=self.use_idx, **kw)
+            rec = dict(k=k, w=w, op=op, name=name, res='ok', phase=ph, exc=exc, inj=inj,
+                       u=self.use_by_w.get(w, self.use_idx), **kw)
             self.ops.append(rec)
         if self.crash_at is not None and k == self.crash_at + 1:
             os._exit(77)
+        if k > MAX_OPS:
+            raise HangError(f'more than {MAX_OPS} file-system operations')
+        if inj and self.plan is not None:
+            # the temp-name loop moves on to another name: "the same operation" of an open is an open in that directory
+            sig = (op, os.path.dirname(name) if op == 'open' else name)
+            if self.plan_sig is None and k == self.plan['at']:
+                self.plan_sig = sig
+                self.plan_left = self.plan['times'] if self.plan.get('times') is not None else 1 << 60
+            if self.plan_sig == sig and self.plan_left > 0:
+                self.plan_left -= 1
+                rec['res'] = 'fault'
+                rec['cls'] = self.plan['cls']
+                raise FAULT_CLASSES[self.plan['cls']][0](name)
         if inj and (self.fault_at == k or (isinstance(self.fault_at, (set, frozenset)) and k in self.fault_at)):
             rec['res'] = 'fault'
             raise OSError(errno.EIO, 'injected fault', name)
@@ -277,10 +358,10 @@ class RawSpy(io.FileIO):
     def close(self) -> None:
         if self.closed:
             return
-        err = None
+        err: BaseException | None = None
         try:
             self._sim.begin('close', self._nm)
-        except OSError as e:        # a failing close(2) still releases the descriptor
+        except (OSError, KeyboardInterrupt) as e:        # a failing close(2) still releases the descriptor
             err = e
         super().close()
         if err is not None:
@@ -424,13 +505,26 @@ def bsp_break(b: Any, brk: str) -> None:
         raise ValueError(brk)
 
 
-def run_single(sc: dict, root: str, fault_at: Any = None, crash_at: int | None = None) -> dict:
+def _outcome(e: BaseException) -> str:
+    """How a `with` statement ended, as a string: body / oserror[:Class] / kbd / hang / other:..."""
+    if isinstance(e, BodyError):
+        return 'body'
+    if isinstance(e, OSError):
+        return 'oserror' if e.errno == errno.EIO else f'oserror:{type(e).__name__}'
+    if isinstance(e, KeyboardInterrupt):
+        return 'kbd'
+    if isinstance(e, HangError):
+        return f'hang:{e}'
+    return f'other:{type(e).__name__}:{e}'
+
+
+def run_single(sc: dict, root: str, fault_at: Any = None, crash_at: int | None = None, plan: dict | None = None) -> dict:
     """Run one scenario on the real code. Returns ops, outcome and final listing (not in crash mode: the child dies)."""
     populate(root, sc)
     dest = os.path.join(root, sc['dest'])
-    sim = FsSim(root, sc.get('bufsize', 8192), fault_at, crash_at)
+    sim = FsSim(root, sc.get('bufsize', 8192), fault_at, crash_at, plan=plan)
     outcome = 'ok'
-    with sim:
+    with sim, deadline():
         AWSpy = make_spy_class(sim)
         try:
             if sc.get('bsp'):
@@ -456,12 +550,8 @@ def run_single(sc: dict, root: str, fault_at: Any = None, crash_at: int | None =
                 aw = AWSpy(dest, is_bytes=not sc.get('text'), **({'encoding': sc['encoding']} if sc.get('text') else {}))
                 with aw as f:
                     body_plain(sc)(f)
-        except BodyError:
-            outcome = 'body'
-        except OSError as e:
-            outcome = 'oserror' if e.errno == errno.EIO else f'oserror:{type(e).__name__}'
-        except Exception as e:     # anything else escaping is itself reported
-            outcome = f'other:{type(e).__name__}:{e}'
+        except (Exception, KeyboardInterrupt, HangError) as e:     # anything unexpected escaping is itself reported
+            outcome = _outcome(e)
     return dict(ops=sim.ops, outcome=outcome, listing=listing(root))
 
 
@@ -724,7 +814,7 @@ def _single_scenario(ck0: Ck, work: Path, si: int, sc: dict, do_model: bool, cas
         raise_k = next((o['k'] for o in ops0 if o['phase'] == 'exit'), len(ops0) + 1) if raising else None
 
         def add_case(cut: int, faults: list[int], real_events, real_listing: dict, real_committed, what: dict,
-                     cmp_tmp_content: bool) -> None:
+                     cmp_tmp_content: bool, proto: str = 'aw_proto') -> None:
             if not do_model or patho:
                 return
             if real_events is None:
@@ -734,7 +824,7 @@ def _single_scenario(ck0: Ck, work: Path, si: int, sc: dict, do_model: bool, cas
                     ck.tie_broken.append('correspondence AtomicWriter trace: ' + what.get('why', ''))
                 return
             # pre_ok = false: BSP.save's rebuild phase raises, the writer is never entered (save_alone in the model)
-            coq = (f'corr_case_t aw_proto {"false" if pre_fail else "true"} {nm.coq_init()} {scen_coq} {cut} '
+            coq = (f'corr_case_t {proto} {"false" if pre_fail else "true"} {nm.coq_init()} {scen_coq} {cut} '
                    f'{coq_list(map(str, faults))} '
                    f'{coq_list(nm.probe_names(max_tmp))}')
             if pre_fail:
@@ -811,7 +901,7 @@ def _single_scenario(ck0: Ck, work: Path, si: int, sc: dict, do_model: bool, cas
             d = lst.get(sc['dest'])
             committed = r['outcome'] == 'ok'
             cleanup_fault = hit[0]['op'] == 'unlink'
-            if r['outcome'].startswith('other'):
+            if r['outcome'].startswith(('other', 'hang')):
                 ck.violation(f'unexpected-exception-after-{at}-fault', r['outcome'], replay_obj('fault', sc, k=k))
             if r['outcome'] != 'ok' and d != old:
                 ck.violation('dest-named-like-temp-file' if patho else f'dest-changed-after-{at}-fault',
@@ -847,7 +937,7 @@ def _single_scenario(ck0: Ck, work: Path, si: int, sc: dict, do_model: bool, cas
                 ck.hist('double_fault_ops', at2)
                 lst2 = r2['listing']
                 rp2 = replay_obj('fault', sc, k=[k, k2])
-                if r2['outcome'] == 'ok' or r2['outcome'].startswith('other'):
+                if r2['outcome'] == 'ok' or r2['outcome'].startswith(('other', 'hang')):
                     ck.violation(f'unexpected-outcome-after-two-faults:{at2}', r2['outcome'], rp2)
                 if lst2.get(sc['dest']) != old:
                     ck.violation('dest-named-like-temp-file' if patho else f'dest-changed-after-two-faults:{at2}',
@@ -861,6 +951,111 @@ def _single_scenario(ck0: Ck, work: Path, si: int, sc: dict, do_model: bool, cas
                 ev2, why2 = canon_events(r2['ops'], nm, wtok)
                 add_case(len(r2['ops']) + 5, [i for i, e in enumerate(ev2 or []) if e[3] == 3], ev2, lst2, False,
                          {'run': f'OSErrors at ops {k} ({at}) and {k2}', 'scenario': sc_json(sc), 'why': why2}, False)
+
+
+        # ---- every exception class at every operation, refused for good or only k times (round 4)
+        _class_runs(ck, sc, fresh, ops0, old, new, init_names, raising, patho, pre_fail, nm, wtok, add_case)
+
+
+# Which exception a refused operation raises, and for how long.  None = persistent (every further attempt of the same
+# operation on the same name is refused as well); k = refused k times, then accepted.
+CLASS_TIMES: list[int | None] = [None, 1, 2, 3, 5]
+CLASS_SCENARIOS = ('buffered', 'unbuffered', 'stale-temp', 'new-subdir', 'text', 'raise-after-1', 'new-file',
+                   'bsp-save-buf512', 'bsp-save-fresh-path-buf512', 'bsp-save-body-raises')
+# not injected into raw writes: io.BufferedWriter itself retries EINTR for ever and gives EAGAIN a meaning of its own
+# (partial write), below the code under test
+NOT_AT_WRITES = ('InterruptedError', 'BlockingIOError')
+CLASS_MODEL = False
+
+
+def coq_run_class(ck: Ck, cls: str) -> str | None:
+    """The run class of SM/AtomicRetry.v for an injected exception class (None: not modelled)."""
+    rc = FAULT_CLASSES[cls][1]
+    if rc is None:
+        return None
+    if rc == 'generic':
+        return 'RGeneric'
+    if rc == 'kbd':
+        return 'RKbd'
+    table = (ck.extra.get('translated', {}).get('AtomicWriter_gen', {}) or {}).get('subclasses') or []
+    name = rc.split(':')[1]
+    return f'(RSub {table.index(name)})' if name in table else None
+
+
+def _class_runs(ck: Any, sc: dict, fresh: Callable[[str], str], ops0: list[dict], old: bytes | None, new: bytes | None,
+                init_names: set[str], raising: bool, patho: bool, pre_fail: bool, nm: 'NameMap', wtok: Callable,
+                add_case: Callable) -> None:
+    if patho or pre_fail or not (is_big(ck) or sc['kind'] in CLASS_SCENARIOS or sc['kind'].startswith('random')):
+        return
+    bsp = bool(sc.get('bsp'))
+    wks = [o['k'] for o in ops0 if o['op'] == 'write']
+    keepw = set(wks[:1] + wks[-1:]) if not is_big(ck) else set(wks[:2] + wks[-2:] + wks[len(wks) // 2:len(wks) // 2 + 1])
+    names = list(FAULT_CLASSES)
+    if bsp and not is_big(ck):
+        names = ['OSError:ENOSPC', 'PermissionError:EACCES', 'IsADirectoryError', 'FileNotFoundError', 'KeyboardInterrupt']
+    for o in ops0:
+        if not o['inj'] or (o['op'] == 'write' and o['k'] not in keepw):
+            continue
+        at = op_label(o)
+        for cls in names:
+            cname = cls.split(':')[0]
+            if o['op'] == 'write' and (cname in NOT_AT_WRITES or (not escalated(ck) and cls not in (
+                    'OSError:ENOSPC', 'PermissionError:EACCES', 'KeyboardInterrupt'))):
+                continue
+            hits_persistent = None
+            for times in CLASS_TIMES:
+                if times is None and cname == 'FileExistsError' and o['op'] == 'open':
+                    continue      # "every name is taken, for ever": the unbounded temp-name loop cannot end, by design
+                if times is not None and hits_persistent is not None and times >= hits_persistent:
+                    continue      # the persistent run gave up after that many refusals: the same run again
+                plan = dict(at=o['k'], cls=cls, times=times)
+                r = run_single(sc, fresh('class'), plan=plan)
+                hit = [x for x in r['ops'] if x['res'] == 'fault']
+                if times is None:
+                    hits_persistent = len(hit)
+                if not hit:
+                    break
+                mode = 'persistent' if times is None else 'transient'
+                ck.count('class_fault_runs')
+                ck.seen(('class', sc['kind'], sc.get('bufsize'), o['k'], cls, times))
+                ck.hist('class_fault', f'{at}:{cname}:{mode}')
+                ck.hist('class_fault_refusals', len(hit))
+                rp = replay_obj('fault-class', sc, plan=plan)
+                key = lambda what: f'errclass:{what}:{at}:{cname}:{mode}'
+                how = (f'{cls} injected into operation {o["k"]} ({at})'
+                       + (' and every further attempt' if times is None else f', {len(hit)} time(s), then accepted') + ': ')
+                lst = r['listing']
+                d = lst.get(sc['dest'])
+                outc = r['outcome']
+                if outc.startswith(('other', 'hang')):
+                    ck.violation(key('hang' if outc.startswith('hang') else 'unexpected-exception'), how + outc, rp)
+                    continue
+                if outc == 'ok' and times is None:
+                    ck.violation(key('refused-operation-reported-as-success'),
+                                 how + f'the operation never succeeded, yet the with statement returned normally '
+                                       f'(destination holds {d!r:.40}, directory {sorted(lst)})', rp)
+                if cname == 'KeyboardInterrupt' and outc != 'kbd' and times is None:
+                    ck.violation(key('keyboard-interrupt-did-not-propagate'), how + f'the with statement ended with {outc}', rp)
+                if outc != 'ok' and d != old:
+                    ck.violation(key('dest-changed-after-failure'),
+                                 how + f'the write failed ({outc}) but the destination holds {d!r:.60} instead of the '
+                                       f'previous {old!r:.40}', rp)
+                if outc == 'ok' and d != new:
+                    ck.violation(key('success-reported-but-destination-not-new'),
+                                 how + f'the with statement returned normally but the destination holds {d!r:.60}', rp)
+                extra = set(lst) - init_names - {sc['dest']}
+                # "the file is gone" said by a refused cleanup unlink is believed: the carve-out of the property
+                if extra and not any(x['op'] == 'unlink' for x in hit):
+                    ck.violation(key('temp-left'), how + f'{sorted(extra)} stayed in the directory (outcome {outc})', rp)
+                for n0, v0 in sc['init'].items():
+                    if n0 != sc['dest'] and lst.get(n0) != v0:
+                        ck.violation(key('foreign-file-touched'), how + f'{n0} changed', rp)
+                rcls = coq_run_class(ck, cls) if CLASS_MODEL else None
+                if rcls is None or (cname == 'FileExistsError' and o['op'] == 'open') or bsp and not is_big(ck):
+                    continue
+                evf, whyf = canon_events(r['ops'], nm, wtok)
+                add_case(len(r['ops']) + 5, [i for i, e in enumerate(evf or []) if e[3] == 3], evf, lst, outc == 'ok',
+                         {'run': how, 'scenario': sc_json(sc), 'why': whyf}, False, proto=f'(class_proto aw_obj {rcls})')
 
 
 def eval_cases(ck: Ck, cases: list[dict], tag: str) -> None:
@@ -999,13 +1194,13 @@ def bsp_scenarios(ck: Ck) -> list[dict]:
 # S (the body returns) / B (the body raises after some writes); OSErrors are injected on top.  What survives a use is
 # the object's instance attributes: every use must behave like the single use of a fresh object in the directory the
 # previous use left (c12_reuse_history), whatever came before it.
-def run_history(hs: dict, root: str, fault_at: Any = None, crash_at: int | None = None) -> dict:
+def run_history(hs: dict, root: str, fault_at: Any = None, crash_at: int | None = None, plan: dict | None = None) -> dict:
     populate(root, hs)
     dest = os.path.join(root, hs['dest'])
-    sim = FsSim(root, hs.get('bufsize', 8192), fault_at, crash_at)
+    sim = FsSim(root, hs.get('bufsize', 8192), fault_at, crash_at, plan=plan)
     outcomes: list[str] = []
     listings: list[dict[str, bytes]] = [listing(root)]
-    with sim:
+    with sim, deadline():
         AWSpy = make_spy_class(sim)
         aw = AWSpy(dest, is_bytes=not hs.get('text'), **({'encoding': hs['encoding']} if hs.get('text') else {}))
         sim.snaps = []
@@ -1017,14 +1212,17 @@ def run_history(hs: dict, root: str, fault_at: Any = None, crash_at: int | None 
             try:
                 with aw as f:
                     body_plain(use)(f)
-            except BodyError:
-                outcome = 'body'
-            except OSError as e:
-                outcome = 'oserror' if e.errno == errno.EIO else f'oserror:{type(e).__name__}'
-            except Exception as e:
-                outcome = f'other:{type(e).__name__}:{e}'
+            except (Exception, KeyboardInterrupt) as e:
+                outcome = _outcome(e)
+            except HangError as e:
+                outcome = _outcome(e)
             outcomes.append(outcome)
             listings.append(listing(root))
+            if outcome.startswith('hang'):
+                break
+        while len(outcomes) < len(hs['uses']):       # a hung use ends the history: the later uses are not run
+            outcomes.append(outcomes[-1])
+            listings.append(listings[-1])
     return dict(ops=sim.ops, outcomes=outcomes, listings=listings, snaps=sim.snaps, dest=dest)
 
 
@@ -1209,7 +1407,7 @@ def history_campaign(ck: Ck, do_model: bool) -> None:
                         f'{", OSError in " + op_label(hit[0]) if hit else ""}; {pos.replace("-", " ")}): ')
                 cause = f'{op_label(hit[0])}-fault' if hit else ('body-exception' if raising else 'success')
                 exp_out = 'body' if raising else 'ok'
-                if (not hit and outc != exp_out) or (hit and (outc == 'ok' or outc.startswith('other'))):
+                if (not hit and outc != exp_out) or (hit and (outc == 'ok' or outc.startswith(('other', 'hang')))):
                     ck.violation(f'reuse:unexpected-outcome-after-{cause}:{pos}', what + f'the with statement ended with {outc}', rp)
                 d = after.get(hs['dest'])
                 if outc == 'ok' and d != news[u]:
@@ -1492,13 +1690,13 @@ def two_check(ck: Ck, P: Pair, r: dict, fault_at: int | None, do_model: bool, ca
                 ck.violation('two-writers:unexpected-outcome' + sfx, f'writer {w} ended with {r["outcomes"][w]}', rp)
             continue
         if P.same_dest:
-            if r['outcomes'][w] == 'ok' or r['outcomes'][w].startswith('other'):
+            if r['outcomes'][w] == 'ok' or r['outcomes'][w].startswith(('other', 'hang')):
                 ck.violation('two-writers:unexpected-outcome-with-fault',
                              f'writer {w} got an OSError in {hit[0]["op"]} but ended with {r["outcomes"][w]}', rp)
             continue
         exp_out = 'ok' if s.get('raise_after') is None else 'body'
         if w == fw:
-            if r['outcomes'][w] == 'ok' or r['outcomes'][w].startswith('other'):
+            if r['outcomes'][w] == 'ok' or r['outcomes'][w].startswith(('other', 'hang')):
                 ck.violation('two-writers:unexpected-outcome-with-fault',
                              f'writer {w} got an OSError in {hit[0]["op"]} but ended with {r["outcomes"][w]}', rp)
             if lst.get(s['dest']) != init.get(s['dest']):
@@ -2164,6 +2362,7 @@ def _campaigns(ck: Ck, built: bool) -> None:
     stage['two'] = round(time.time() - t1, 1)
     reuse_keys = [v['key'] for v in ck.violations if v['key'].startswith('reuse:')]
     keys = {v['key'].removeprefix('bsp-save:').removeprefix('reuse:') for v in ck.violations}
+    class_keys = {k for k in keys if k.startswith('errclass:')}
     # which failed obligations a concrete violation (with a replay) explains
     temp_left = any(k.startswith(('temp-left-after-', 'two-writers:temp-left', 'unexpected-files')) for k in keys)
     dest_bad = any('mixture' in k or k.startswith(('dest-changed', 'new-content', 'old-content', 'wrong-content',
@@ -2191,6 +2390,8 @@ def _campaigns(ck: Ck, built: bool) -> None:
          ['instance:temp_loop_']),
         (bool(ck.extra.get('bsp_violations')), ['instance:bsp_', 'translate:']),
         (bool(reuse_keys), ['instance:reuse_', 'instance:exit_without_enter', 'translate:', 'correspondence:']),
+        # a refused operation of some exception class, persistent or transient, with a failing input
+        (bool(class_keys), ['instance:', 'translate:', 'correspondence:']),
     ]
     for cond, names in table:
         if cond:
@@ -2217,7 +2418,7 @@ def replay(data: dict) -> int:
         return 0
     root = tempfile.mkdtemp(prefix='c12_replay_', dir='/var/tmp')
     try:
-        if r['mode'] in ('crash', 'fault'):
+        if r['mode'] in ('crash', 'fault', 'fault-class'):
             sc = dict(r['scenario'])
             sc['init'] = {n: bytes.fromhex(v) for n, v in sc['init'].items()}
             sc['chunks'] = [bytes.fromhex(c) if not sc.get('text') else c for c in sc.get('chunks', [])]
@@ -2229,8 +2430,13 @@ def replay(data: dict) -> int:
                 rc, lst = run_crash(sc, os.path.join(root, 'd'), r['k'])
                 print(f'killed after {r["k"]} operations (child exit {rc})')
             else:
-                res = run_single(sc, os.path.join(root, 'd'),
-                                 fault_at=frozenset(r['k']) if isinstance(r['k'], list) else r['k'])
+                if r['mode'] == 'fault-class':
+                    print('plan  :', r['plan'], '(operation `at` is refused with `cls`; times = None: so is every further '
+                          'attempt of the same operation, k: the first k attempts)')
+                    res = run_single(sc, os.path.join(root, 'd'), plan=r['plan'])
+                else:
+                    res = run_single(sc, os.path.join(root, 'd'),
+                                     fault_at=frozenset(r['k']) if isinstance(r['k'], list) else r['k'])
                 lst = res['listing']
                 print('operations:', [(o['op'], o['name'], o['res']) for o in res['ops']])
                 print('outcome:', res['outcome'])
